@@ -535,9 +535,10 @@ impl FaitAccompli1Sampler<PartitionSampler> {
         let mut required_samples = Vec::new();
         let mut validators_truncated_stake = validators.clone();
         for v in &mut validators_truncated_stake {
-            let frac_stake = v.stake.inner() as f64 / total_stake.inner() as f64;
-            let samples = (frac_stake * k as f64).floor() as u64;
-            v.stake -= Stake::new(samples * total_stake.inner() / k);
+            // exact integer arithmetic: `f64` rounding under- or over-allocates seats
+            let (stake, total) = (u128::from(v.stake.inner()), u128::from(total_stake.inner()));
+            let samples = (stake * u128::from(k) / total) as u64;
+            v.stake -= Stake::new((u128::from(samples) * total / u128::from(k)) as u64);
             required_samples.extend((0..samples).map(|_| v.id));
         }
         let all_zero = validators_truncated_stake
@@ -567,9 +568,10 @@ impl FaitAccompli1Sampler<IidQuorumSampler<StakeWeightedSampler>> {
         let mut required_samples = Vec::new();
         let mut validators_truncated_stake = validators.clone();
         for v in &mut validators_truncated_stake {
-            let frac_stake = v.stake.inner() as f64 / total_stake.inner() as f64;
-            let samples = (frac_stake * k as f64).floor() as u64;
-            v.stake -= Stake::new(samples * total_stake.inner() / k);
+            // exact integer arithmetic: `f64` rounding under- or over-allocates seats
+            let (stake, total) = (u128::from(v.stake.inner()), u128::from(total_stake.inner()));
+            let samples = (stake * u128::from(k) / total) as u64;
+            v.stake -= Stake::new((u128::from(samples) * total / u128::from(k)) as u64);
             required_samples.extend((0..samples).map(|_| v.id));
         }
         let all_zero = validators_truncated_stake
@@ -638,8 +640,9 @@ impl FaitAccompli2Sampler {
         let total_stake: Stake = validators.iter().map(|v| v.stake).sum();
         let mut required_samples = Vec::new();
         for v in &validators {
-            let frac_stake = v.stake.inner() as f64 / total_stake.inner() as f64;
-            let samples = (frac_stake * k as f64).floor() as u64;
+            // exact integer arithmetic: `f64` rounding under- or over-allocates seats
+            let (stake, total) = (u128::from(v.stake.inner()), u128::from(total_stake.inner()));
+            let samples = (stake * u128::from(k) / total) as u64;
             required_samples.extend((0..samples).map(|_| v.id));
         }
 
